@@ -37,9 +37,12 @@
 (*   F19  capKey = "" stands for a nil AND for an empty CaptchaHMACSecret    *)
 (*        (Unmarshal and the GET/POST round trip turn nil into empty;        *)
 (*        captchaConfigured() must treat both alike).                        *)
-(* Not modelled: until the first Config entry every IRCServer of a process  *)
-(* shares the Banned map of config.DefaultConfig (NewIRCServer copies the   *)
-(* struct); GLINE needs an operator, hence a posted config with its own map.*)
+(* The model has no process-global state: on the unchanged tree only the    *)
+(* servers that never got a Config entry share the Banned map of             *)
+(* config.DefaultConfig (NewIRCServer copies the struct), and GLINE needs an *)
+(* operator, hence a posted config with its own fresh map.  State that leaks *)
+(* through such a shared map shows up as bans/fields that survive an         *)
+(* accepted update or as replicas that disagree (scenario specifications).   *)
 (***************************************************************************)
 EXTENDS Integers, Sequences, FiniteSets, TLC, Json
 
@@ -69,18 +72,21 @@ ValidBodies   == {"P", "A", "Ae", "Ab", "B", "C", "Cn", "Ce", "D", "E", "Z"}
 InvalidBodies == {"Xsyn", "Xtype", "Xdur", "Xhex"}
 AllBodies     == ValidBodies \cup InvalidBodies \cup {"R"}   \* "R" = re-post of what GET /config returned
 
+ProjA == [Base EXCEPT !.exp = 30, !.ops = {"o1"}, !.svc = {"s1"}, !.maxS = 2, !.maxC = 1,
+                      !.bridges = {"b1"}, !.origins = {"g1"}]
+ProjC == [Base EXCEPT !.exp = 60, !.ops = {"o2"}, !.maxS = 1, !.origins = {"g2"}, !.banned = {"a1"}]
+
 Proj(b) ==
     CASE b = "P" -> [Base EXCEPT !.exp = 30]
-      [] b = "A" -> [Base EXCEPT !.exp = 30, !.ops = {"o1"}, !.svc = {"s1"}, !.maxS = 2, !.maxC = 1,
-                                 !.bridges = {"b1"}, !.origins = {"g1"}]
-      [] b = "Ae" -> Proj("A")                                  \* A + an empty [Banned] table
-      [] b = "Ab" -> [Proj("A") EXCEPT !.banned = {"a1"}]       \* A + [Banned] listing a1
+      [] b = "A" -> ProjA
+      [] b = "Ae" -> ProjA                                      \* A + an empty [Banned] table
+      [] b = "Ab" -> [ProjA EXCEPT !.banned = {"a1"}]           \* A + [Banned] listing a1
       [] b = "B" -> [Base EXCEPT !.exp = 60, !.ops = {"o1", "o2"}, !.svc = {"s2"}, !.maxC = 2,
                                  !.capUrl = "u1", !.capKey = "k1",
                                  !.bridges = {"b1"}, !.origins = {"g1", "g2"}, !.banned = {"a2"}]
-      [] b = "C" -> [Base EXCEPT !.exp = 60, !.ops = {"o2"}, !.maxS = 1, !.origins = {"g2"}, !.banned = {"a1"}]
-      [] b = "Cn" -> [Proj("C") EXCEPT !.banned = {}]           \* C without any [Banned] table
-      [] b = "Ce" -> [Proj("C") EXCEPT !.banned = {}]           \* C with an empty [Banned] table
+      [] b = "C" -> ProjC
+      [] b = "Cn" -> [ProjC EXCEPT !.banned = {}]               \* C without any [Banned] table
+      [] b = "Ce" -> [ProjC EXCEPT !.banned = {}]               \* C with an empty [Banned] table
       [] b = "D" -> [Base EXCEPT !.exp = 30, !.ops = {"o1"}, !.svc = {"s1", "s2"}, !.capUrl = "u1",
                                  !.bridges = {"b1"}, !.banned = {"l"}]
       [] b = "E" -> [Base EXCEPT !.exp = 45, !.ops = {"o1"}, !.capUrl = "u1", !.capKey = "k1", !.capLogin = TRUE,
@@ -413,7 +419,8 @@ TrapGlineRepost == ~(last # None /\ last.a = "Restart" /\ cnt.g > 0 /\ base.rev 
 ExportTable ==
     /\ TLCGet("distinct") > 0
     /\ JsonSerialize("Config_bodies.json",
-          [valid |-> [b \in ValidBodies |-> Proj(b)], invalid |-> InvalidBodies])
+          [valid |-> [b \in ValidBodies |-> Proj(b)], invalid |-> InvalidBodies,
+           bannedKind |-> [b \in ValidBodies |-> BannedKind(b)]])
 
 (* behaviour export: complete behaviours are printed for the replay *)
 ExportBehaviours == (RecordHist /\ n = MaxSteps) => PrintT(<<"BEHAVIOUR", ToJson(hist)>>)
